@@ -58,7 +58,13 @@ func (node *Node) processUnconfirmedTx(ctx context.Context, tx handlers.TxData) 
 	if len(conflicts) > 0 {
 		logger.Warn(ctx, "Found %d conflicts with %s", len(conflicts), hash)
 		// Notify of attempted double spend
-		for _, conflict := range conflicts {
+		// This tx is marked too. When it is new that has no effect yet, but when it was already sent
+		// before it had conflicts it would otherwise be reported safe later. That happens when it is
+		// seen again after a restart, since the mempool is not saved.
+		unsafeTxs := make([]bitcoin.Hash32, 0, len(conflicts)+1)
+		unsafeTxs = append(unsafeTxs, conflicts...)
+		unsafeTxs = append(unsafeTxs, *hash)
+		for _, conflict := range unsafeTxs {
 			isRelevant, err := node.txs.MarkUnsafe(ctx, conflict)
 			if err != nil {
 				return errors.Wrap(err, "Failed to check tx repo")
